@@ -596,7 +596,7 @@ void execute_output(const Plan &plan, Verdict &v, bool c17) {
     if (cfg.wr_mode) COUNT("fault_write_short_or_failed");
     if (cfg.flush_err) COUNT("fault_flush_failed");
     set_line_ending((int) plan.k("line_ending", 0));   // configuration `user` only: the terminator is a run-time setting
-    const std::string le = line_ending();
+    std::string le = line_ending();
     World w(cfg);
     Run run(w, v, c17);
     w.write_hook = [&run](World &) { run.relay_from_write_callback(); };
@@ -642,6 +642,13 @@ void execute_output(const Plan &plan, Verdict &v, bool c17) {
         if (op.kind == "cuts") {
             cuts = op.a;
             ci = 0;
+            continue;
+        }
+        if (op.kind == "le") {
+            // the operator changes the terminator setting of the running instrument (configuration `user`; no-op elsewhere)
+            set_line_ending((int) op.arg(0));
+            le = line_ending();
+            COUNT("fault_terminator_changed_on_live_context");
             continue;
         }
         if (op.kind != "msg" || !op.has_s) continue;
@@ -949,6 +956,7 @@ void generate_output(Rng &r, const GenOpts &g, Plan &p, bool c17) {
             for (long j = 0; j < nc; j++) c.push_back(r.chance(1, 3) ? 1 : r.range(1, 14));
             p.ops.push_back(Op("cuts", c));
         }
+        if (!c17 && g.config == "user" && r.chance(1, 6)) p.ops.push_back(Op("le", {(long) r.below(3)}));
         std::string msg;
         long nu = r.chance(1, 3) ? 1 : r.range(2, 6);
         if (!c17 && r.chance(1, 1500)) {
